@@ -2,9 +2,11 @@
 //! plus the reference filters of liblzma.
 //!   bcj_enc <arch> <start_pos> <parts>                 BCJWriter under a write-call partition
 //!   bcj_enc_short <arch> <start_pos> <parts> <k>       the same into a sink taking <= k bytes per call
-//!   bcj_dec <arch> <start_pos> <inner parts> <sizes>   BCJReader over an inner reader delivering
-//!                                                      <inner parts>, read with destination sizes
-//!                                                      <sizes> (cycled; impl-only argument)
+//!   bcj_dec <arch> <start_pos> <inner script> <sizes>  BCJReader over an inner reader following the
+//!                                                      script (hex chunk | !<error code> for one
+//!                                                      failing call; !8 = Interrupted), read by a
+//!                                                      loop with destination sizes <sizes> (cycled)
+//!                                                      that retries on Interrupted
 //! arch = x86 | arm | armthumb | arm64 | ppc | sparc | ia64 | riscv
 use crate::reflib;
 use crate::util::*;
@@ -105,11 +107,123 @@ fn impl_encode(arch: &str, start: usize, parts: &[Vec<u8>], max: usize) -> Outco
     })
 }
 
-fn impl_decode(arch: &str, start: usize, parts: &[Vec<u8>], sizes: &[usize]) -> Outcome<Vec<u8>> {
+/// One step of the inner reader's script: a chunk to deliver or a failing call.
+#[derive(Clone)]
+enum Ev {
+    Data(Vec<u8>),
+    Fail(u32),
+}
+
+fn parse_script(s: &str) -> Vec<Ev> {
+    if s == "." {
+        return Vec::new();
+    }
+    s.split(',')
+        .filter_map(|t| {
+            if let Some(c) = t.strip_prefix('!') {
+                Some(Ev::Fail(c.parse().unwrap()))
+            } else {
+                let b = unhex(t);
+                if b.is_empty() { None } else { Some(Ev::Data(b)) }
+            }
+        })
+        .collect()
+}
+
+fn kind_of(code: u32) -> io::ErrorKind {
+    match code {
+        1 => io::ErrorKind::InvalidData,
+        2 => io::ErrorKind::InvalidInput,
+        3 => io::ErrorKind::UnexpectedEof,
+        8 => io::ErrorKind::Interrupted,
+        _ => io::ErrorKind::Other,
+    }
+}
+
+/// Inner reader following a script (see Filter/BcjStream.v inner_read).
+struct ScriptReader {
+    evs: std::collections::VecDeque<Ev>,
+}
+
+impl Read for ScriptReader {
+    fn read(&mut self, buf: &mut [u8]) -> io::Result<usize> {
+        if buf.is_empty() {
+            return Ok(0);
+        }
+        match self.evs.pop_front() {
+            None => Ok(0),
+            Some(Ev::Fail(c)) => Err(io::Error::new(kind_of(c), "scripted")),
+            Some(Ev::Data(p)) => {
+                let n = p.len().min(buf.len());
+                buf[..n].copy_from_slice(&p[..n]);
+                if n < p.len() {
+                    self.evs.push_front(Ev::Data(p[n..].to_vec()));
+                }
+                Ok(n)
+            }
+        }
+    }
+}
+
+/// The caller's loop (Filter/BcjStream.v bcj_drive): sizes cycled (4096 if none), a call failing
+/// with Interrupted is repeated, any other error ends the loop, Ok(0) for a non-empty destination
+/// ends it normally.  Returns the bytes obtained and the error that ended the loop, if any.
+fn drive<R: Read>(r: &mut R, sizes: &[usize], cap: usize) -> (Vec<u8>, Option<u32>) {
+    let mut out = Vec::new();
+    let mut i = 0usize;
+    let mut buf = vec![0u8; sizes.iter().copied().max().unwrap_or(4096).max(1)];
+    loop {
+        let sz = if sizes.is_empty() { 4096 } else { sizes[i % sizes.len()] };
+        i += 1;
+        match r.read(&mut buf[..sz]) {
+            Err(e) if e.kind() == io::ErrorKind::Interrupted => continue,
+            Err(e) => return (out, Some(err_code(&e))),
+            Ok(n) => {
+                if sz == 0 {
+                    if n != 0 {
+                        return (out, Some(99));
+                    }
+                    if !sizes.is_empty() && sizes.iter().all(|&s| s == 0) {
+                        return (out, None);
+                    }
+                    continue;
+                }
+                if n == 0 {
+                    return (out, None);
+                }
+                out.extend_from_slice(&buf[..n]);
+                if out.len() > cap || i > 50_000_000 {
+                    return (out, Some(98));
+                }
+            }
+        }
+    }
+}
+
+fn impl_decode_script(arch: &str, start: usize, evs: &[Ev], sizes: &[usize]) -> Outcome<(Vec<u8>, Option<u32>)> {
     guarded(|| {
-        let mut r = reader(arch, ChunkReader::new(parts.to_vec()), start);
-        read_with_sizes(&mut r, sizes, 1 << 26)
+        let mut r = reader(arch, ScriptReader { evs: evs.iter().cloned().collect() }, start);
+        Ok(drive(&mut r, sizes, 1 << 26))
     })
+}
+
+fn impl_decode(arch: &str, start: usize, parts: &[Vec<u8>], sizes: &[usize]) -> Outcome<Vec<u8>> {
+    let evs: Vec<Ev> = parts.iter().filter(|p| !p.is_empty()).map(|p| Ev::Data(p.clone())).collect();
+    match impl_decode_script(arch, start, &evs, sizes) {
+        Outcome::Ok((v, None)) => Outcome::Ok(v),
+        Outcome::Ok((_, Some(c))) => Outcome::Err(c),
+        Outcome::Err(c) => Outcome::Err(c),
+        Outcome::Panic(m) => Outcome::Panic(m),
+    }
+}
+
+fn fmt_dec(o: &Outcome<(Vec<u8>, Option<u32>)>) -> String {
+    match o {
+        Outcome::Ok((v, None)) => format!("OK {}", hex(v)),
+        Outcome::Ok((v, Some(c))) => format!("ERR {} {}", c, hex(v)),
+        Outcome::Err(c) => format!("ERR {}", c),
+        Outcome::Panic(_) => "PANIC".to_string(),
+    }
 }
 
 fn ref_props(arch: &str, start: usize) -> Option<Vec<u8>> {
@@ -404,7 +518,34 @@ pub fn gen(rng: &mut Rng, tier: &str, dist: &mut Dist) -> Vec<String> {
         };
         let sizes = if sizes == [1] && encoded.len() > 6000 { vec![1, 2, 3, 509] } else { sizes };
         dist.bump(&format!("readsizes.{}", if sizes.is_empty() { "4096" } else if sizes.contains(&0) { "with_zero" } else if sizes.iter().all(|&s| s < 8) { "tiny" } else { "mixed" }));
-        cmds.push(format!("bcj_dec {} {} {} {}", arch, start, hex_parts(&iparts), ints(&sizes)));
+        // the inner reader's script: now and then with transient failures, rarely with a hard one
+        let fault = match rng.below(10) {
+            0 | 1 | 2 => "soft",
+            3 => "hard",
+            _ => "none",
+        };
+        dist.bump(&format!("innerfaults.{fault}"));
+        let mut toks: Vec<String> = Vec::new();
+        let hard_at = if fault == "hard" { rng.below(iparts.len() as u64 + 1) as usize } else { usize::MAX };
+        for (k, p) in iparts.iter().enumerate() {
+            if k == hard_at {
+                toks.push(format!("!{}", *rng.pick(&[6u32, 1, 3])));
+            }
+            if fault != "none" && rng.chance(1, 3) {
+                for _ in 0..1 + rng.below(2) {
+                    toks.push("!8".into());
+                }
+            }
+            toks.push(hex(p));
+        }
+        if hard_at == iparts.len() {
+            toks.push(format!("!{}", *rng.pick(&[6u32, 1, 3])));
+        }
+        if fault != "none" && rng.chance(1, 2) {
+            toks.push("!8".into());
+        }
+        let script = if toks.is_empty() { ".".to_string() } else { toks.join(",") };
+        cmds.push(format!("bcj_dec {} {} {} {}", arch, start, script, ints(&sizes)));
     }
     cmds
 }
@@ -473,20 +614,26 @@ pub fn exec(a: &[&str]) -> (String, String) {
         "bcj_dec" => {
             let arch = a[1];
             let start: usize = a[2].parse().unwrap();
-            let parts = unhex_parts(a[3]);
+            let evs = parse_script(a[3]);
             let sizes: Vec<usize> = if a[4] == "." { vec![] } else { a[4].split(',').map(|x| x.parse().unwrap()).collect() };
-            let dec = impl_decode(arch, start, &parts, &sizes);
-            // oracle: the read history must not matter (one-shot read of the same bytes from a
-            // one-chunk inner reader), and the reference decoder agrees
-            let whole: Vec<u8> = parts.concat();
+            let dec = impl_decode_script(arch, start, &evs, &sizes);
+            // oracle: neither the read history nor transient failures of the inner reader matter
+            // (one-shot read of the same bytes from a fault-free one-chunk inner reader); a hard
+            // failure is reported as such after a prefix of that output; the reference agrees
+            let whole: Vec<u8> = evs.iter().flat_map(|e| match e { Ev::Data(p) => p.clone(), _ => vec![] }).collect();
+            let hard: Option<u32> = evs.iter().find_map(|e| match e { Ev::Fail(c) if *c != 8 => Some(*c), _ => None });
             let one = impl_decode(arch, start, &[whole.clone()], &[1 << 20]);
+            let all_zero = !sizes.is_empty() && sizes.iter().all(|&s| s == 0);
             let mut oracle = match (&dec, &one) {
-                (Outcome::Ok(x), Outcome::Ok(y)) if x == y => "ok".to_string(),
                 (Outcome::Panic(m), _) => format!("FAIL reader panicked: {m}"),
-                _ => "FAIL reader output depends on the read history".to_string(),
+                (Outcome::Ok((x, None)), Outcome::Ok(y)) if all_zero && x.is_empty() => { let _ = y; "ok".to_string() }
+                (Outcome::Ok((x, None)), Outcome::Ok(y)) if x == y && hard.is_none() => "ok".to_string(),
+                (Outcome::Ok((x, Some(c))), Outcome::Ok(y)) if Some(*c) == hard && y.starts_with(x) => "ok".to_string(),
+                (Outcome::Ok((_, Some(c))), _) if Some(*c) != hard => format!("FAIL reader returned error {c} the inner reader never produced"),
+                _ => "FAIL reader output depends on the read history / inner reader's transient errors".to_string(),
             };
-            if oracle == "ok" {
-                if let (Outcome::Ok(x), Some(props)) = (&dec, ref_props(arch, start)) {
+            if oracle == "ok" && hard.is_none() && !all_zero {
+                if let (Outcome::Ok((x, None)), Some(props)) = (&dec, ref_props(arch, start)) {
                     match reflib::ref_filter_decode(kind(arch), &props, &whole) {
                         Ok(r) if r == *x => {}
                         Ok(_) => oracle = "FAIL decoded bytes differ from liblzma".into(),
@@ -494,7 +641,7 @@ pub fn exec(a: &[&str]) -> (String, String) {
                     }
                 }
             }
-            (fmt_bytes_outcome(&dec), oracle)
+            (fmt_dec(&dec), oracle)
         }
         _ => ("NOCMD".into(), "FAIL unknown command".into()),
     }
